@@ -194,7 +194,10 @@ pub fn probe(m: &HistModel, st: &St) -> Vec<Issue> {
                 let known = if proto == 9 { st.refc[i].v9.contains_key(&id) } else { st.refc[i].ipfix.contains_key(&id) };
                 // also when the lib itself thinks it does not hold it but the reference does: still "absent" for the lib
                 let lib_has = st.enc[i].iter().any(|(mm, eid, _)| (*mm / 2 == 0) == (proto == 9) && *eid == id);
-                if known || lib_has {
+                // (an id the reference never received but the real cache holds - invented, leaked, or remembered from
+                // rejected input - is still an id "for which the parser holds no template" a collector ever sent it)
+                let _ = lib_has;
+                if known {
                     continue;
                 }
                 let elsewhere = (0..m.ninst).any(|j| st.refc[j].v9.contains_key(&id) || st.refc[j].ipfix.contains_key(&id));
